@@ -120,9 +120,9 @@ Proof.
   intros H. unfold check_kind. apply conn_tmap_keys in H. apply existsb_beqb_In in H. now rewrite H.
 Qed.
 
-Lemma unknown_kind_sys le files procs k :
-  ~ In k kinds -> net_connections le files procs k = Exc ValueError.
+Lemma unknown_kind_sys v le files procs k :
+  ~ In k kinds -> net_connections v le files procs k = Exc ValueError.
 Proof. intros H. unfold net_connections. now rewrite (check_kind_bad k H). Qed.
-Lemma unknown_kind_proc le files pid ls k :
-  ~ In k kinds -> proc_net_connections le files pid ls k = Exc ValueError.
+Lemma unknown_kind_proc v le files pid ls k :
+  ~ In k kinds -> proc_net_connections v le files pid ls k = Exc ValueError.
 Proof. intros H. unfold proc_net_connections. now rewrite (check_kind_bad k H). Qed.
